@@ -30,6 +30,7 @@ var registry = []*HarnessSpec{
 	{Prop: "C17", Name: "zzH17c", Pkg: pkgCrhttp, Tier: "quick", Bounds: "all four (prometheus, pprof) combinations"},
 	{Prop: "C17", Name: "zzH17a", Pkg: pkgCorerad, Tier: "quick", Unwind: 600, Bounds: "three interfaces (advertising with one stanza of every kind parsed by the real parser, monitoring, neither) in 3 orders; plugins prepared or never prepared; forwarding/autoconf per interface symbolic; lifetimes symbolic"},
 	{Prop: "C04", Name: "zzH17a", Pkg: pkgCorerad, Tier: "quick", Unwind: 600, Bounds: "metrics-scrape path: forwarding read per scrape, misconfiguration gauge iff not forwarding with a non-zero configured lifetime"},
+	{Prop: "C08", Name: "zzH08g", Pkg: pkgCorerad, Tier: "quick", MonoTime: true, Explore: true, Sched: 3000, SchedThorough: 60000, Bounds: "Advertiser.Run with all its real goroutines and an open link-state subscription; the stop (cancel, then the subscription is closed as the watcher does when it ends) arrives at any point of the start-up, goroutine schedules explored up to the budget; terminate or reload; natively 40 repetitions"},
 	{Prop: "C08", Name: "zzH08e", Pkg: pkgCorerad, Tier: "quick", MonoTime: true, NoNative: true, Explore: true, Sched: 3000, SchedThorough: 60000, Bounds: "Advertiser.Run with all its real goroutines; a solicitation injected and the context cancelled back to back; goroutine schedules explored up to the budget"},
 	{Prop: "C08", Name: "zzH08d", Pkg: pkgCorerad, Tier: "quick", MonoTime: true, NoNative: true, Bounds: "Advertiser.Run with all its real goroutines over a scripted socket; stopped while idle / with a solicited response pending / with a solicited response in flight; terminate or reload"},
 	{Prop: "C08", Name: "zzH08b", Pkg: pkgCorerad, Tier: "quick", Bounds: "signalTask.Run for SIGINT / SIGTERM / SIGHUP with a cancel function that reads the recorded decision"},
@@ -64,6 +65,7 @@ var registry = []*HarnessSpec{
 	{Prop: "C02", Name: "zzH02route", Pkg: pkgConfig, Tier: "quick", Bounds: "one route stanza: prefix string of every shape, lifetime of every shape, preference low/high/absent/unknown, deprecated"},
 	{Prop: "C02", Name: "zzH02rdnss", Pkg: pkgConfig, Tier: "quick", Bounds: "one rdnss stanza: lifetime of every shape, 0..3 server strings each unparsable / IPv4 / any IPv6 address"},
 	{Prop: "C02", Name: "zzH02overlap", Pkg: pkgConfig, Tier: "quick", Params: map[string]int{"n": 2, "n@thorough": 3}, Bounds: "2 (3) prefix or route stanzas with arbitrary canonical IPv6 prefixes (incl. the wildcards)"},
+	{Prop: "C02", Name: "zzH02overlapW", Pkg: pkgConfig, Tier: "quick", Bounds: "three route stanzas: the wildcard (::/0 or empty) at any position, two arbitrary canonical IPv6 routes: rejected iff the two overlap"},
 	{Prop: "C01", Name: "zzH02iface", Pkg: pkgConfig, Tier: "quick", Bounds: "name/names groups: every interface gets its own plugin objects"},
 	{Prop: "C02", Name: "zzH02iface", Pkg: pkgConfig, Tier: "quick", Bounds: "name set/unset x 0..2 names x monitor x advertise x garbage advertising keys"},
 	{Prop: "C02", Name: "zzH02compose", Pkg: pkgConfig, Tier: "quick", Bounds: "one whole advertising interface with two stanzas of every list kind, concrete valid values; at most one of 19 components corrupted (the second stanza of a list)"},
